@@ -630,6 +630,39 @@ Theorem section_options_refuted : reduce_unsupported U_section_options = Ok tt.
 Proof. vm_compute. reflexivity. Qed.
 
 (* ================================================================================================== *)
+(** * Key blobs resolve to their definitions                                                          *)
+(* ================================================================================================== *)
+Lemma find_keyblob_unique : forall kbs id c, NoDup (map fst kbs) -> In (id, c) kbs -> find_keyblob id kbs = Some c.
+Proof.
+  induction kbs as [|[i d] t IH]; simpl; intros id c Hnd Hin; [contradiction|].
+  inversion Hnd as [|x l Hni Hnd']; subst.
+  destruct Hin as [H|H].
+  - inversion H; subst. rewrite Z.eqb_refl. reflexivity.
+  - destruct (i =? id) eqn:E.
+    + apply Z.eqb_eq in E. subst. exfalso. apply Hni. change id with (fst (id, c)). apply in_map. assumption.
+    + apply IH; assumption.
+Qed.
+
+Theorem keyblob_resolves :
+  forall kbs id c s e k ct kb cb,
+    NoDup (map fst kbs) -> In (id, c) kbs ->
+    dget "start" c = Some (DInt s) -> dget "end" c = Some (DInt e) ->
+    dget "key" c = Some (DStr k) -> dget "counter" c = Some (DStr ct) ->
+    fromhex k = Some kb -> fromhex ct = Some cb -> List.length kb = 16%nat -> List.length cb = 8%nat ->
+    0 <= s <= e -> e <= 4294967295 -> Z.land s 1023 = 0 ->
+    resolve_keyblob kbs id =
+      Ok {| kb_start := s; kb_end := e; kb_key := kb; kb_ctr := cb; kb_swap := truthy (dget "byte_swap" c) |}.
+Proof.
+  intros kbs id c s e k ct kb cb Hnd Hin Hs He Hk Hc Hkb Hcb Lk Lc Hr He2 Hal.
+  unfold resolve_keyblob. rewrite (find_keyblob_unique kbs id c Hnd Hin).
+  unfold dhas. rewrite Hs, He, Hk, Hc. simpl. rewrite Hkb, Hcb, Lk, Lc. simpl.
+  replace (s <? 0) with false by (symmetry; apply Z.ltb_ge; lia).
+  replace (e <? s) with false by (symmetry; apply Z.ltb_ge; lia).
+  replace (4294967295 <? e) with false by (symmetry; apply Z.ltb_ge; lia).
+  simpl. rewrite Hal. reflexivity.
+Qed.
+
+(* ================================================================================================== *)
 (** * One statement, one command                                                                      *)
 (* ================================================================================================== *)
 Lemma mapM_length {A B} (f : A -> res B) : forall l r, mapM f l = Ok r -> List.length r = List.length l.
